@@ -877,12 +877,12 @@ func (h *hist) rollupStep(trig string) {
 		if len(ran) > 0 {
 			anyRan = true
 		}
-		if h.tainted[iv] {
-			continue
-		}
 		// the property: every file whose job completed is in the target, exactly once
 		for _, fr := range ran {
 			fr.Status[iv] = stIn
+		}
+		if h.tainted[iv] {
+			continue
 		}
 		ctx := h.rollupCtx(trig, len(ran) > 0)
 		r := h.m.compare(iv, tv.obs[iv], h.inclFor(iv), 6)
